@@ -80,11 +80,18 @@ def switch_state(path, sw):
             res = v
     if res is None:
         # the decision may be hidden inside a merged callee outcome
-        for n in path.notes:
-            if n[0] == "outcome":
-                for a, v in n[4]:
-                    if a[0] == "truthy" and term_has_attr(a[1], sw):
-                        res = v
+        def walk(notes):
+            # ... at any depth (a setter that calls a helper that calls the stamping helper)
+            r = None
+            for n in notes:
+                if n and n[0] == "outcome":
+                    for a, v in n[4]:
+                        if a[0] == "truthy" and term_has_attr(a[1], sw):
+                            r = v
+                    if r is None and len(n) > 5:
+                        r = walk(n[5])
+            return r
+        res = walk(path.notes)
     return res
 
 
